@@ -59,9 +59,11 @@ structure HopRule where
   decrement : Nat
   /-- notices are not generated about packets whose FromService is "unreach" -/
   noticeGuard : Bool
+  /-- `handlePing` does not answer a packet whose FromService is "ping" -/
+  pingGuard : Bool := true
   deriving DecidableEq, Repr
 
-def stdHops : HopRule := { expireAt := 0, decrement := 1, noticeGuard := true }
+def stdHops : HopRule := { expireAt := 0, decrement := 1, noticeGuard := true, pingGuard := true }
 
 structure NodeCfg where
   route : Node → Option Node
@@ -100,7 +102,8 @@ def handle (H : HopRule) (me : Node) (cfg : NodeCfg) (p : Packet) : Outcome :=
   | .accept =>
     if p.toNode = me then
       if p.toSvc = pingSvc then
-        if p.fromNode = me ∧ p.fromSvc = pingSvc then .diverges
+        if H.pingGuard ∧ p.fromSvc = pingSvc then .silent
+        else if p.fromNode = me ∧ p.fromSvc = pingSvc then .diverges
         else .spawn { fromNode := me, fromSvc := pingSvc, toNode := p.fromNode, toSvc := p.fromSvc,
                       ttl := cfg.maxHops, body := .raw [] }
       else if p.toSvc = unreachSvc then
